@@ -778,4 +778,79 @@ theorem block_roundtrip_sem (crc : Crc) (syms : List Bytes) (series : List Serie
   · intro n hn; rw [hreq]; exact labelValues_written crc syms series h hnd hne n hn
   · rw [hreq]; exact labelNames_written crc syms series h hsorted hne
 
+/-! ## Damage of sections and of the whole file -/
+
+/-- Any length-prefixed section (`BE32 len | content | crc32`: symbol table, postings list, postings
+    offset table): a changed content byte is a checksum error for `NewDecbufAt`. -/
+theorem section_damage_detected (crc : Crc) (hcrc : CrcDetects1 crc) (content pre post b1 b2 : Bytes) (x y : UInt8)
+    (hsize : content.length < 4294967296) (hpre : pre.length < 9223372036854775808)
+    (hsplit : content = b1 ++ x :: b2) (hxy : x ≠ y) :
+    decbufAt crc true (pre ++ (putBE32 content.length ++ (b1 ++ y :: b2) ++ crcBytes crc content) ++ post) pre.length
+      = .error .checksum := by
+  have hl : (b1 ++ y :: b2).length = content.length := by rw [hsplit]; simp
+  rw [decbufAt_frame crc pre post _ _ _ hsize hl (crcBytes_length _ _) hpre]
+  rw [if_pos]
+  rw [hsplit]
+  exact crcBytes_ne crc (hcrc b1 b2 y x (fun h => hxy h.symm))
+
+/-- … and a changed byte of the stored checksum as well (no assumption on `crc`). -/
+theorem section_crc_damage_detected (crc : Crc) (content pre post c1 c2 : Bytes) (x y : UInt8)
+    (hsize : content.length < 4294967296) (hpre : pre.length < 9223372036854775808)
+    (hsplit : crcBytes crc content = c1 ++ x :: c2) (hxy : x ≠ y) :
+    decbufAt crc true (pre ++ (putBE32 content.length ++ content ++ (c1 ++ y :: c2)) ++ post) pre.length
+      = .error .checksum := by
+  have hl : (c1 ++ y :: c2).length = 4 := by
+    have := congrArg List.length hsplit
+    rw [crcBytes_length] at this
+    simp only [List.length_cons, List.length_append] at this ⊢; omega
+  rw [decbufAt_frame crc pre post _ _ _ hsize rfl hl hpre]
+  rw [if_pos]
+  rw [hsplit]
+  intro h
+  have := List.append_cancel_left h
+  simp at this
+  exact hxy this
+
+/-- The fault sweep on the whole index file: altering byte `i` of the body-or-checksum part of the
+    `k`-th series entry (absolute position `16·id + len(uvarint) + i`) makes `Reader.Series(id)` fail
+    with a checksum error. -/
+theorem block_entry_damage_detected (crc : Crc) (hcrc : CrcDetects1 crc) (lookup : Lookup)
+    (syms : List Bytes) (series : List Series) (k : Nat) (s : Series) (id : Nat)
+    (hs : series[k]? = some s) (hid : (writeIndex crc syms series).ids[k]? = some id)
+    (hsize : (seriesBody s).length < 34359738368)
+    (i : Nat) (hi : i < (seriesBody s).length + 4) (y : UInt8)
+    (hy : (seriesBody s ++ crcBytes crc (seriesBody s))[i]? ≠ some y) :
+    readSeriesAt crc lookup
+      ((writeIndex crc syms series).bytes.set (id * 16 + (putUvarint (seriesBody s).length).length + i) y)
+      (id * 16) = .error .checksum := by
+  have hid' : (placeSeries crc (indexHeader.length + (symbolTable crc syms).length) series).2[k]? = some id := hid
+  obtain ⟨a, b, hab, hpos⟩ := placeSeries_spec crc series _ k s id hs hid'
+  have hfile : (writeIndex crc syms series).bytes =
+      (indexHeader ++ symbolTable crc syms ++ a) ++
+        (putUvarint (seriesBody s).length ++ (seriesBody s ++ crcBytes crc (seriesBody s))) ++
+        (b ++ indexMid crc syms series ++ encToc crc (writeIndex crc syms series).toc) := by
+    rw [writeIndex_bytes, hab]
+    simp only [seriesEntry, List.append_assoc]
+  have hl : (indexHeader ++ symbolTable crc syms ++ a).length = id * 16 := by
+    simp only [List.length_append]; omega
+  rw [hfile, ← hl]
+  have hset : ((indexHeader ++ symbolTable crc syms ++ a) ++
+        (putUvarint (seriesBody s).length ++ (seriesBody s ++ crcBytes crc (seriesBody s))) ++
+        (b ++ indexMid crc syms series ++ encToc crc (writeIndex crc syms series).toc)).set
+        ((indexHeader ++ symbolTable crc syms ++ a).length + (putUvarint (seriesBody s).length).length + i) y =
+      (indexHeader ++ symbolTable crc syms ++ a) ++
+        (putUvarint (seriesBody s).length ++ (seriesBody s ++ crcBytes crc (seriesBody s)).set i y) ++
+        (b ++ indexMid crc syms series ++ encToc crc (writeIndex crc syms series).toc) := by
+    have hlen : (seriesBody s ++ crcBytes crc (seriesBody s)).length = (seriesBody s).length + 4 := by
+      simp [crcBytes_length]
+    rw [List.append_assoc, List.set_append, if_neg (by omega)]
+    rw [List.set_append, if_pos (by simp only [List.length_append, hlen]; omega)]
+    rw [List.set_append, if_neg (by omega)]
+    have e : (indexHeader ++ symbolTable crc syms ++ a).length + (putUvarint (seriesBody s).length).length + i -
+        (indexHeader ++ symbolTable crc syms ++ a).length - (putUvarint (seriesBody s).length).length = i := by omega
+    rw [e]
+    simp only [List.append_assoc]
+  rw [hset]
+  exact entry_damage_any_position crc hcrc lookup s _ _ hsize i hi y hy
+
 end Prom.C24
